@@ -34,7 +34,10 @@ def run(chk, repo: Repo):
     from ..tolerant import tolerant_shortcut_rule
     tolerant_shortcut_rule(chk, repo, "C12-R6", ("cuqi/model/",))
     chk.rule("C12-R2", "_2fun/_2par: convert only when not already in the target representation; CUQIarray with equal geometry uses its own conversion", floor=2)
-    chk.rule("C12-R3", "gradient: wrt/direction conversions and vector-Jacobian orientation", floor=4)
+    chk.rule("C12-R3", "gradient: wrt/direction conversions and vector-Jacobian orientation; capability tests (hasattr) are static: no geometry / model class "
+                       "forwards unknown attributes dynamically", floor=4)
+    from ..dynattr import dynamic_attribute_rule
+    dynamic_attribute_rule(chk, repo, "C12-R3", ("cuqi/geometry/", "cuqi/model/"))
     chk.rule("C12-R4", "model(distribution) renames a copy after the dimension check", floor=1)
     chk.rule("C12-R5", "forward validates its input before use and passes (forward_func, range, domain)", floor=2)
     model = repo.cls(MODEL)
@@ -173,6 +176,22 @@ def _r2(chk, repo, model):
         chk.add("C12-R2", f"{model.qual}.{hname}/geometry-by-value", not ident, site(repo, ident[0] if ident else hsrc), "geometries compared with ==",
                 f"`{unparse(ident[0]) if ident else ''}` compares geometries by identity: a CUQIarray carrying an equal geometry that is a different object is "
                 f"not recognised as already being in the model's representation (function values are mapped through par2fun a second time)", ident[0] if ident else hsrc)
+    # ... and "by value" is decided by Geometry.__eq__ alone: an object of another class is UNEQUAL (False).  `NotImplemented` hands the decision to the
+    # reflected comparison of the other operand, and the base class's attribute-wise comparison then calls a Continuous1D equal to a StepExpansion / KL
+    # expansion on the same grid (the range conversion fun2par would be skipped for an output that still carries the domain geometry)
+    from ..pathtable import walk_paths as _wp
+    geo = repo.cls("cuqi/geometry/_geometry.py:Geometry")
+    eq = geo.methods.get("__eq__")
+    if eq is None:
+        raise AnchorError("Geometry.__eq__ not found")
+    o_ = func_params(eq)[1]
+    valq = {pn(f"isinstance({o_},self.__class__)"): False, pn(f"isinstance({o_},type(self))"): False, pn(f"type({o_}) is type(self)"): False,
+            pn(f"type(self) is type({o_})"): False, pn(f"type({o_})==type(self)"): False}
+    outs = [(k_, pn(r_) if k_ == "return" else None) for k_, r_ in _wp(canon_fn(repo, geo, eq, 1), valq, pn)]
+    chk.decide("C12-R2", f"{geo.qual}.__eq__/other-class", outs == [("return", "False")], bool(outs) and all(k_ == "return" for k_, _ in outs), site(repo, eq),
+               "a geometry of another class is unequal (False)",
+               f"for an object of another class Geometry.__eq__ gives {outs}, not False: the comparison is handed to the other operand's (weaker, attribute-wise) "
+               f"test, so geometries of different classes on the same grid compare equal and a conversion the model owes is skipped", eq)
     src = repo.method(model, "_2fun")[1]
     f2 = canon_fn(repo, model, src, 2)
     x, geo, ip = func_params(f2)[1:4]
